@@ -28,14 +28,9 @@ FS_OTHER_MUTATING = {                    # none of these is used by txtpp today;
     "std::fs::File::set_permissions": "changes metadata",
     "std::fs::File::set_times": "changes mtime",
     "std::fs::File::set_modified": "changes mtime",
-    "std::fs::File::options": "write-capable open builder",
-    "std::fs::OpenOptions::new": "write-capable open builder",
-    "std::fs::OpenOptions::open": "write-capable open",
-    "std::fs::OpenOptions::write": "write-capable open builder",
-    "std::fs::OpenOptions::append": "append-mode open builder",
-    "std::fs::OpenOptions::create": "write-capable open builder",
-    "std::fs::OpenOptions::create_new": "write-capable open builder",
-    "std::fs::OpenOptions::truncate": "write-capable open builder",
+    # OpenOptions: the effect happens at `open`; it is classified by its builder chain in common.classify_open()
+    # (truncating-create iff .write(true) + .truncate(true) and never .append(true)); builder methods are not effects
+    "std::fs::OpenOptions::open": "write-capable open whose builder chain is not provably truncating",
     "std::fs::DirBuilder::create": "creates a directory",
     "std::fs::DirBuilder::new": "creates a directory",
 }
